@@ -1142,3 +1142,98 @@ func init() {
 	handlers["measurex"] = measureXHandler
 	tokModes["measurex"] = "int"
 }
+
+// ------------------------------------------------------------------ extras (beyond the listed properties)
+func extrasHandler(raw json.RawMessage) map[string]any {
+	var c struct {
+		Op          string
+		Cs          [][]int
+		Dim, Val    int
+		Start, Stop int
+		A, O, B     pt
+		C, D        pt
+	}
+	must(json.Unmarshal(raw, &c))
+	out := map[string]any{"pan": ""}
+	lineOf := func() *geom.LineString {
+		st := len(c.Cs[0])
+		var flat []float64
+		for _, co := range c.Cs {
+			for _, v := range co {
+				flat = append(flat, float64(v))
+			}
+		}
+		return geom.NewLineStringFlat(layoutOfStride(st), flat)
+	}
+	switch c.Op {
+	case "interpolate":
+		out["i"], out["fq"] = -1, 0
+		ev, msg := call(func() {
+			i, f := lineOf().Interpolate(float64(c.Val), c.Dim-1)
+			out["i"], out["fq"] = i, int(math.Round(f*1024))
+		})
+		if ev != "ok" {
+			out["pan"] = msg
+		}
+	case "sub":
+		out["sub"], out["shares"] = [][]int{}, false
+		ev, msg := call(func() {
+			ls := lineOf()
+			sub := ls.SubLineString(c.Start, c.Stop)
+			rows := [][]float64{}
+			for i := 0; i < sub.NumCoords(); i++ {
+				rows = append(rows, append([]float64{}, sub.Coord(i)...))
+			}
+			ri, _ := intRows(rows)
+			if ri == nil {
+				ri = [][]int{}
+			}
+			out["sub"] = ri
+			shares := true
+			if sub.NumCoords() > 0 {
+				sub.FlatCoords()[0] = -5
+				shares = ls.FlatCoords()[c.Start*ls.Stride()] == -5
+			}
+			out["shares"] = shares
+		})
+		if ev != "ok" {
+			out["pan"] = msg
+		}
+	case "angle":
+		out["acute"] = xy.IsAcute(c.A.coord(), c.O.coord(), c.B.coord())
+		out["obtuse"] = xy.IsObtuse(c.A.coord(), c.O.coord(), c.B.coord())
+	case "lineint":
+		out["x"], out["y"] = numOut(math.NaN(), 1024), numOut(math.NaN(), 1024)
+		ev, msg := call(func() {
+			p := bigxy.Intersection(c.A.coord(), c.B.coord(), c.C.coord(), c.D.coord())
+			out["x"], out["y"] = numOut(p[0], 1024), numOut(p[1], 1024)
+		})
+		if ev != "ok" {
+			out["pan"] = msg
+		}
+	case "transform":
+		after := [][]int{}
+		if len(c.Cs) > 0 {
+			ls := lineOf()
+			i := 0
+			geom.TransformInPlace(ls, func(co geom.Coord) {
+				i++
+				for k := range co {
+					co[k] += float64(k + 1 + 10*i)
+				}
+			})
+			rows := [][]float64{}
+			for j := 0; j < ls.NumCoords(); j++ {
+				rows = append(rows, append([]float64{}, ls.Coord(j)...))
+			}
+			after, _ = intRows(rows)
+		}
+		out["after"] = after
+	}
+	return out
+}
+
+func init() {
+	handlers["extras"] = extrasHandler
+	tokModes["extras"] = "int"
+}
